@@ -184,7 +184,10 @@ type Run struct {
 	// store-level runs: phase currently executing, and whether an injected disk fault fired in the second one
 	curPhase      int
 	reqReuse      map[string]*reuseSlot
-	preCorrupt    map[string][]byte // file content before the harness first modified it at rest (until the backend rewrites it)
+	exchIdx       map[exchKey]*Exch // (client name, operation index) -> its latest exchange
+	judging       bool
+	lineageEnd    map[*UpCall]uint64 // memo of lastSeqOfLineage (history is immutable once judging starts)
+	preCorrupt    map[string][]byte  // file content before the harness first modified it at rest (until the backend rewrites it)
 	faultInPhase2 bool
 	OpenErr       string
 	DiskEnd       map[string][]byte
@@ -383,6 +386,9 @@ func (r *Run) beginStoreOp(g *kit.Gor, kind, key string, val []byte) *StoreOp {
 }
 
 func (r *Run) exchFor(owner string, opIdx int) *Exch {
+	if r.exchIdx != nil {
+		return r.exchIdx[exchKey{owner, opIdx}]
+	}
 	for i := len(r.Exchs) - 1; i >= 0; i-- {
 		e := r.Exchs[i]
 		if e.Name == owner && e.OpIdx == opIdx {
@@ -1076,6 +1082,11 @@ func hdrValue(v string) string {
 	return v
 }
 
+type exchKey struct {
+	name string
+	op   int
+}
+
 // reuseSlot: a request value a client keeps sending, and what it contained when the client built it.
 type reuseSlot struct {
 	req  *http.Request
@@ -1184,6 +1195,10 @@ func (r *Run) exchange(g *kit.Gor, ci, oi int, name string, op *Op) {
 	}
 	r.mu.Lock()
 	r.Exchs = append(r.Exchs, e)
+	if r.exchIdx == nil {
+		r.exchIdx = map[exchKey]*Exch{}
+	}
+	r.exchIdx[exchKey{name, oi}] = e
 	r.cur[name] = e
 	rt := r.rt
 	r.mu.Unlock()
